@@ -510,6 +510,31 @@ class VInterp(sym.Interp):
         raise sym.Unsupported(it, "iteration over %r" % (v,))
 
     def ev_For(self, n):
+        # `for i in a..b` with a concrete start and a *symbolic* end (an iteration cap): the counter form `i = a; while i < b { …; i += 1 }`,
+        # the continuation test decided like any other condition
+        itp = peel(n["iter"])
+        if itp.get("k") == "Struct" and (itp.get("def") or "").endswith("ops::Range"):
+            f_ = {x["name"]: x["e"] for x in itp["fields"]}
+            if "start" in f_ and "end" in f_:
+                a, b = self.ev(f_["start"]), self.ev(f_["end"])
+                if getattr(a, "is_Integer", False) and not getattr(b, "is_Integer", False) and isinstance(b, sp.Basic):
+                    i = int(a)
+                    for _ in range(self.WHILE_LIMIT):
+                        self.tick(n)
+                        if not self.decide(sp.Lt(sp.Integer(i), b), n):
+                            return None
+                        self.bind(n["pat"], sp.Integer(i), n)
+                        try:
+                            self.ev(n["body"])
+                        except sym.Continue as c:
+                            if c.target not in (None, n["id"]):
+                                raise
+                        except sym.Break as b_:
+                            if b_.target not in (None, n["id"]):
+                                raise
+                            return None
+                        i += 1
+                    raise Budget(n, "a `for` loop over a symbolic range does not terminate within %d abstract iterations" % self.WHILE_LIMIT)
         items = self.iter_values(n["iter"])
         for v in items:
             self.tick(n)
